@@ -121,16 +121,16 @@ Definition unflatten (m : flatmap) : res children := unflatten_from m [].
 (** * Vocabulary of the theorems *)
 
 (** the leaf stored under a path of keys, if any *)
-Fixpoint leafat (p : list bytes) (node : children) : option bytes :=
+Fixpoint leafat_t (p : list bytes) (t : jt) : option bytes :=
   match p with
-  | [] => None
+  | [] => match t with Leaf v => Some v | Obj _ => None end
   | k :: rest =>
-    match lookup k node with
-    | None => None
-    | Some (Leaf v) => match rest with [] => Some v | _ :: _ => None end
-    | Some (Obj c) => match rest with [] => None | _ :: _ => leafat rest c end
+    match t with
+    | Leaf _ => None
+    | Obj l => match lookup k l with Some c => leafat_t rest c | None => None end
     end
   end.
+Definition leafat (p : list bytes) (node : children) : option bytes := leafat_t p (Obj node).
 
 Definition dotfree (k : bytes) : bool := forallb (fun c => negb (N.eqb c DOT)) k.
 
@@ -162,15 +162,18 @@ Fixpoint path_prefix (p q : list bytes) : bool :=
   | _ :: _, [] => false
   end.
 
-(** flat keys: non-empty, and no key's path is a prefix of (or equal to) another entry's path *)
-Fixpoint prefix_free (paths : list (list bytes)) : bool :=
-  match paths with
-  | [] => true
-  | p :: r => forallb (fun q => negb (path_prefix p q) && negb (path_prefix q p)) r && prefix_free r
-  end.
+Definition path_eqb (p q : list bytes) : bool := list_eqb bytes_eqb p q.
+Definition proper_prefix (p q : list bytes) : bool := path_prefix p q && negb (path_eqb p q).
 
+(** no path is a proper prefix of another one *)
+Definition prefix_free (paths : list (list bytes)) : bool :=
+  forallb (fun p => forallb (fun q => negb (proper_prefix p q)) paths) paths.
+
+(** flat maps that are images of nested maps: keys non-empty and unique (a Go map), and no key's
+    dotted path is a proper prefix of another key's path *)
 Definition good_flat (m : flatmap) : bool :=
-  forallb (fun kv => nonempty (fst kv)) m && prefix_free (map (fun kv => split_dot (fst kv)) m).
+  forallb (fun kv => nonempty (fst kv)) m && nodup_keys m
+  && prefix_free (map (fun kv => split_dot (fst kv)) m).
 
 (** two flat maps (logs) denote the same Go map *)
 Definition flat_equiv (a b : flatmap) : Prop := forall k, lookup_last k a = lookup_last k b.
